@@ -272,7 +272,8 @@ def r4(ctx):
             a0 = Slicer(ctx.w).atoms(b, t["args"][0])
             for fld in ("turmoil::rt::Rt::local", "turmoil::rt::Rt::tokio"):
                 if "field:" + fld in a0:
-                    if t["f"].endswith("replace") and len(t["args"]) > 1:
+                    if (t["f"].endswith("replace") or t["f"].endswith("swap")) and len(t["args"]) > 1:
+                        # (swap with a binding that holds the pair from rt::init installs that pair)
                         a1 = Slicer(ctx.w).atoms(b, t["args"][1])
                         ok = "call:turmoil::rt::init" in a1
                     else:
